@@ -725,6 +725,69 @@ pub fn spaces(tier: Tier) -> Vec<Space> {
             judge(acc, case, &sp, &fam.name, "short-der-signature", true);
         }));
     }
+    // (1h) signature opcodes inside conditional branches, OP_CODESEPARATOR at every token boundary (inside taken and
+    // not-taken branches, before and after the conditional): IF <A> CHECKSIG ELSE <B> CHECKSIG ENDIF selected by the
+    // unlocking script; the signer signs the subscript after the last EXECUTED separator; the right and the wrong key sign
+    {
+        let ks2 = ks.clone();
+        let base_len = 7usize;
+        let nvar = (base_len + 4) as u64;
+        v.push(Space::new("conditional-branches", nvar * 2 * 2 * 12 * 2, move |case, acc| {
+            let c = coords(case.idx, &[nvar, 2, 2, 12, 2]);
+            let base: Vec<Tok> = vec![Tok::Op(0x63), push(&ks2.pk[0][0]), Tok::Op(0xac), Tok::Op(0x67), push(&ks2.pk[1][1]), Tok::Op(0xac), Tok::Op(0x68)];
+            let locking = with_separators(&base, c[0] as usize);
+            let take_if = c[1] == 0;
+            let right_key = c[2] == 0;
+            let flag = STD_FLAGS[c[3] as usize];
+            let (n_in, n_out, idx) = if c[4] == 0 { (1, 1, 0) } else { (3, 2, 1) };
+            // subscript after the last executed separator before the executed signature opcode
+            let mut m = Machine::default();
+            let _ = m.step(&if take_if { Tok::Op(0x51) } else { Tok::Op(0x00) });
+            let mut code_start = 0usize;
+            for (i, t) in locking.iter().enumerate() {
+                match t {
+                    Tok::Op(0xab) if m.executing() => code_start = i + 1,
+                    Tok::Op(0xac) if m.executing() => break,
+                    Tok::Op(0xac) => {}
+                    _ => {
+                        let _ = m.step(t);
+                    }
+                }
+            }
+            let sub = locking[code_start..].to_vec();
+            let branch_key = if take_if { 0 } else { 1 };
+            let signer = if right_key { branch_key } else { 1 - branch_key };
+            let tx = base_tx(n_in, n_out);
+            if flag & 0x1f == 3 && idx >= n_out {
+                return;
+            }
+            let Some(sig) = ref_sign(&ks2.d[signer], &tx, idx, &sub, 9000, flag, false) else { return };
+            let unlocking = vec![push(&sig), if take_if { Tok::Op(0x51) } else { Tok::Op(0x00) }];
+            let sp = Spend { tx, idx, value: 9000, unlocking, locking };
+            // The property quantifies over the flat P2PK / P2PKH / multisig families. A signature opcode inside a conditional
+            // is outside that domain, so these spends are OBSERVED, not judged: the counters below end up in the evidence.
+            // (Observed on the pinned tree: a separator executed inside or after a taken branch gives a subscript that differs
+            // from "everything after the separator", because taken branches are spliced into the running script.)
+            acc.evaluations += 1;
+            acc.transitions += 1;
+            let c2 = SpendCtx { tx: &sp.tx, idx: sp.idx, value: sp.value };
+            let want = ref_verdict(&sp.unlocking, &sp.locking, &c2);
+            let (ub, lb) = (rs::serialize(&sp.unlocking), rs::serialize(&sp.locking));
+            match guard(|| lib_verdict(&sp.tx, sp.idx, sp.value, &ub, &lb)) {
+                Ok(Ok(lib_ok)) => {
+                    let agree = (want == Verdict::Accept) == lib_ok;
+                    acc.outcome(&[7, lib_ok as u8, (want == Verdict::Accept) as u8]);
+                    acc.bump(if agree { "outside_quantifier/conditional_branch_spends_agreeing_with_reference" } else { "outside_quantifier/conditional_branch_spends_differing_from_reference" }, 1);
+                    if lib_ok && want == Verdict::Reject && !right_key {
+                        // accepting a signature by the wrong key is wrong for any script: judged
+                        judge(acc, case, &sp, "P2PK-in-conditional/CHECKSIG", "sig-by-the-other-branch-key", false);
+                    }
+                }
+                Ok(Err(_)) => acc.bump("outside_quantifier/conditional_branch_spends_not_constructible", 1),
+                Err(p) => acc.violate(format!("C15/P2PK-in-conditional/kind=panic@{}", panic_site(&p)), case.idx, case.json(json!({"unlocking_hex": hx(&ub), "locking_hex": hx(&lb)})), p),
+            }
+        }));
+    }
     // (1d) histories on ONE library object: sign on it (fills its sighash cache), attach the unlocking script, mutate it
     // through the API, then interpret that same object — the verdict must follow the object's current contents
     {
